@@ -2,7 +2,7 @@
 //!
 //! * `frames <hex>` — `scylla_cql::frame::read_response_frame` in a loop over an in-memory reader (cut frame
 //!   streams, garbage headers, bad versions) against the model's `readFrames`;
-//! * `conn <wc> <ops>` / `ka <wc> <interval ms> <timeout ms> <ops>` — the REAL router over an in-memory stream
+//! * `conn <wc> <ops>` / `ka <wc>/<interval ms>/<timeout ms> <ops>` — the REAL router over an in-memory stream
 //!   (see `c02.rs` for the schedule language) with N requests in flight and a fault: FIN (`x`), garbage
 //!   header / bad version / cut response stream (`b<hex>`), unsolicited stream id (`u<stream>`), silent stall
 //!   with keep-alive on under tokio's paused clock (`t<ms>`).
@@ -194,7 +194,7 @@ pub fn generate(rng: &mut Rng, tier: Tier, emit: &mut dyn FnMut(String)) {
                 _ => ops.push(format!("p{}", rng.below(submitted + 1))),
             }
         }
-        emit(format!("ka {} {} {} {}", rng.below(2), interval, timeout, ops.join(";")));
+        emit(format!("ka {}/{}/{} {}", rng.below(2), interval, timeout, ops.join(";")));
     }
 }
 
@@ -297,9 +297,13 @@ pub fn run(case: &str, ctx: &mut Ctx) -> String {
         Some("conn") if (w.len() == 2 || w.len() == 3) && (w[1] == "0" || w[1] == "1") => {
             run_conn(w[1] == "1", None, &ops(w.get(2)), ctx)
         }
-        Some("ka") if (w.len() == 4 || w.len() == 5) && (w[1] == "0" || w[1] == "1") => {
-            match (w[2].parse::<u64>(), w[3].parse::<u64>()) {
-                (Ok(i), Ok(t)) if i > 0 && t > 0 => run_conn(w[1] == "1", Some((i, t)), &ops(w.get(4)), ctx),
+        Some("ka") if w.len() == 2 || w.len() == 3 => {
+            let cfg: Vec<&str> = w[1].split('/').collect();
+            if cfg.len() != 3 || !(cfg[0] == "0" || cfg[0] == "1") {
+                return "bad-case".to_owned();
+            }
+            match (cfg[1].parse::<u64>(), cfg[2].parse::<u64>()) {
+                (Ok(i), Ok(t)) if i > 0 && t > 0 => run_conn(cfg[0] == "1", Some((i, t)), &ops(w.get(2)), ctx),
                 _ => "bad-case".to_owned(),
             }
         }
